@@ -28,7 +28,8 @@ RULE = ("instances of the seven classes with <= 16 formulation variables: number
         "threshold, and free; a case is non-trivial when it has >= 3 formulation variables and the matrix has >= 3 "
         "terms; distinct = distinct case JSON")
 ASSUMPTIONS = ["coefficients are ints / Fractions / dyadic floats (BILP: numpy int64 / float64 on small values) so that the "
-               "implementation's arithmetic is exact",
+               "implementation's arithmetic is exact; weights of BILP and GraphPartitioning are dyadic rationals because their "
+               "conversions divide numpy / Python ints by 2 (floats), all other classes also get non-dyadic Fractions (1/5, 1/20, 3/100 …)",
                "Python set iteration orders the code itself depends on (GraphPartitioning._vertices, SetCover._U, the "
                "variable set of _solve_bruteforce, the edge sets) are read from the real objects and passed to the model as data",
                "ground-state sentences for SetCover, JobSequencing and GraphPartitioning are checked by this enumeration "
@@ -84,7 +85,8 @@ def gen_np(rng, big=False):
             v = str(-Fraction(v))
         S.append(v)
     wm = weights_mode(rng)
-    A = None if wm == "default" else rs(rng, 1, 4, True) if wm == "above" else rng.choice(["0", "-1", "2", "1/2"])
+    A = None if wm == "default" else rng.choice([rs(rng, 1, 4, True), "1/5", "1/20", "3/100", "1000"]) if wm == "above" \
+        else rng.choice(["0", "-1", "2", "1/2"])
     if A is not None and wm == "above" and Fraction(A) <= 0:
         A = "3"
     return dict(cls="NP", S=S, container=rng.choice(["list", "tuple"]), num=kind, A=A, B=None, wmode=wm)
@@ -92,8 +94,13 @@ def gen_np(rng, big=False):
 def gen_asc(rng, big=False):
     n = rng.randint(1, 10 if big else 7)
     mn, mx = rs(rng, 1, 3, True), rs(rng, 3, 9, True)
-    if rng.random() < 0.1:
+    r = rng.random()
+    if r < 0.1:
         mn = "0"
+    elif r < 0.3:           # sub-unit strengths
+        mn, mx = rng.choice(["1/20", "1/100", "1/5"]), rng.choice(["1/4", "1/2", "9/10"])
+    elif r < 0.4:           # large ratio
+        mn, mx = rng.choice(["1/100", "1/10"]), rng.choice(["100", "1000"])
     return dict(cls="ASC", n=n, len=rng.randint(2, 4), min=mn, max=mx, pbc=rng.random() < 0.5, num="frac",
                 A=None, B=None, wmode="default" if Fraction(mn) > 0 and Fraction(mx) > 0 else "free")
 
@@ -111,16 +118,32 @@ def gen_graph(rng, nmax, emax, loops=True):
         e = rng.choice(edges); edges.append([e[1], e[0]])
     return edges
 
-def ab_weights(rng, wm, thr_of_B):
-    """(A, B) strings: default -> (None, None); above -> B > 0, A strictly above thr_of_B(B); free -> anything"""
+def ab_weights(rng, wm, thr_of_B, dyadic=False):
+    """(A, B) strings (exact Fractions): default -> (None, None); above -> B > 0 and A strictly above thr_of_B(B), in three
+    regimes: ordinary (B around 1, margin around 1), sub-unit (B = 1/4 .. 1/100 and a margin of a fraction of B, so that
+    A < 1 whenever the threshold allows it — a weight that is squared, or otherwise mis-scaled, only shows below 1) and
+    large ratio (A hundreds of times the threshold); free -> anything.  dyadic: powers of two in the denominators only
+    (GraphPartitioning goes through pubo_to_puso, whose `1 / 2` turns Fractions into floats, BILP mixes the weights with
+    numpy int64 data, whose `/ 2` in qubo_to_quso is a float: both are exact on dyadic values only)"""
     if wm == "default":
         return None, None
-    B = Fraction(rs(rng, 1, 3, True))
-    if B <= 0:
-        B = Fraction(1)
     if wm == "above":
-        A = thr_of_B(B) + Fraction(rng.choice([1, 1, 2, 8]), rng.choice([1, 2, 4, 8]))
+        r = rng.random()
+        if r < 0.4:         # sub-unit
+            B = Fraction(1, rng.choice([4, 8, 16, 32, 32, 64, 128] if dyadic else [4, 8, 10, 20, 20, 50, 100]))
+            A = thr_of_B(B) + B * Fraction(1, rng.choice([1, 1, 2, 4]))
+        elif r < 0.5:       # large ratio
+            B = Fraction(rng.choice([1, 1, 3]), rng.choice([1, 16, 128] if dyadic else [1, 10, 100]))
+            A = thr_of_B(B) * rng.choice([16, 128] if dyadic else [10, 100]) + rng.choice([5, 50, 1000])
+        else:
+            B = Fraction(rs(rng, 1, 3, True))
+            if B <= 0:
+                B = Fraction(1)
+            A = thr_of_B(B) + Fraction(rng.choice([1, 1, 2, 8]), rng.choice([1, 2, 4, 8]))
     else:
+        B = Fraction(rs(rng, 1, 3, True))
+        if B <= 0:
+            B = Fraction(1)
         A = Fraction(rs(rng, -1, 4, True))
     return str(A), str(B)
 
@@ -145,13 +168,13 @@ def gen_bilp(rng, big=False):
         b = [rng.randint(-2, 4) for _ in range(m)]
     wm = weights_mode(rng)
     sabs = sum(abs(v) for v in c)
-    A, B = ab_weights(rng, wm, lambda B: B * sabs)
+    A, B = ab_weights(rng, wm, lambda B: B * sabs, dyadic=True)   # numpy int64 / 2 is a float: dyadic weights only
     kind = rng.choice(["int", "int", "float"])
     if kind == "float" and A is not None:
         # keep floats dyadic
-        A, B = str(Fraction(math.ceil(Fraction(A) * 4) + 1, 4)), str(Fraction(math.ceil(Fraction(B) * 4), 4))
+        A, B = str(Fraction(math.ceil(Fraction(A) * 64) + 1, 64)), str(Fraction(math.ceil(Fraction(B) * 64), 64))
         if wm == "above" and Fraction(A) <= Fraction(B) * sabs:
-            A = str(Fraction(B) * sabs + 1)
+            A = str(Fraction(B) * sabs + Fraction(1, 64))
     return dict(cls="BILP", c=[str(v) for v in c], S=[[str(v) for v in r] for r in S], b=[str(v) for v in b],
                 num=kind, A=A, B=B, wmode=wm)
 
@@ -190,11 +213,13 @@ def gen_gp(rng, big=False):
             deg[q] = deg.get(q, 0) + 1
     md = max(deg.values()) if deg else 0
     thr = Fraction(min(2 * md, len(verts)), 8)
-    A, B = ab_weights(rng, wm, lambda B: B * thr)
-    if kind == "float" and A is not None:
-        A, B = str(Fraction(math.ceil(Fraction(A) * 8) + 1, 8)), str(Fraction(math.ceil(Fraction(B) * 8), 8))
+    A, B = ab_weights(rng, wm, lambda B: B * thr, dyadic=True)
+    if kind == "float" and A is not None and Fraction(A).denominator > 64:
+        pass        # already dyadic; small enough for exact float arithmetic
+    elif kind == "float" and A is not None:
+        A, B = str(Fraction(math.ceil(Fraction(A) * 64) + 1, 64)), str(Fraction(math.ceil(Fraction(B) * 64), 64))
         if wm == "above" and Fraction(A) <= Fraction(B) * thr:
-            A = str(Fraction(B) * thr + Fraction(1, 8))
+            A = str(Fraction(B) * thr + Fraction(1, 64))
     return dict(cls="GP", edges=[[u, v, w] for (u, v), w in zip(edges, wl)], **{"as": as_}, style=rng.choice(Labels.STYLES),
                 num=kind, A=A, B=B, wmode=wm)
 
@@ -1094,7 +1119,13 @@ def search(ctx):
         c = d["case"]
         if c.get("cls") not in GEN:
             continue
-        for A, B, wm in ((None, None, "default"), ("9", "1", "above"), ("41/4", "1/2", "above"), ("33", "2", "above")):
+        for A, B, wm in ((None, None, "default"), ("9", "1", "above"), ("41/4", "1/2", "above"), ("33", "2", "above"),
+                         ("1/5", "1/20", "above"), ("1/4", "1/100", "above"), ("3/100", "1/1000", "above"),
+                         ("1000", "1/10", "above"), ("3/16", "1/16", "above"), ("1/4", "1/128", "above"),
+                         ("3/128", "1/1024", "above"), ("1024", "1/8", "above")):
+            if c["cls"] in ("GP", "BILP") and A is not None and any(
+                    Fraction(v).denominator & (Fraction(v).denominator - 1) for v in (A, B)):
+                continue    # GraphPartitioning, BILP: dyadic weights only (floats appear in the conversions)
             if c["cls"] == "ASC":
                 A = B = None
             if c["cls"] == "NP":
